@@ -470,6 +470,7 @@ def run_case(run, case, deadline=None):
     errors = []
 
     def note(name, verdict, detail=""):
+        note.agg = agg
         if name not in agg:
             agg[name] = dict(unsat=0, sat=0, unknown=0, detail="")
             order.append(name)
@@ -792,8 +793,14 @@ def _twin_and_conformance(run, case, c, w, note, sym_outs=None):
         return
     cn = "%s.conformance" % case.name
     if exc is not None:
-        note(cn, "unknown", "real run raised %s: %s" % (type(exc).__name__, exc))
-        run.errors.append((cn, "real run of twin model raised %r" % (exc,)))
+        if case.expected_exception(exc):
+            note(cn, "unknown", "real run raised expected %s" % type(exc).__name__)
+            return
+        # the REAL code crashes on a valid scenario that the symbolic run went through: a replayed failure
+        nm2 = "%s.real-run" % case.name
+        if not run_has_sat(note, nm2):
+            _report(run, case, c, m, nm2, "%s:real-run-raises-%s" % (case.name, type(exc).__name__),
+                    "the real code raises %s: %s on a valid scenario (inputs chosen by the solver for the vacuity twin)" % (type(exc).__name__, str(exc)[:300]), note, rw=rw)
         return
     if sym_outs is not None and not case.same_path(sym_outs, routs):
         note(cn, "unsat", "(skipped on one path: the model of the instantiated path facts does not extend to whole arrays)")
@@ -823,6 +830,11 @@ def _twin_and_conformance(run, case, c, w, note, sym_outs=None):
         run.errors.append((cn, "shim-conformance failure %r" % (bad[:3],)))
     else:
         note(cn, "unsat", "(%d probes: real numpy == shim under the twin model)" % nchk)
+
+
+def run_has_sat(note, nm):
+    agg = getattr(note, "agg", None)
+    return bool(agg and agg.get(nm, {}).get("sat"))
 
 
 def replay_from_file(P, case_name, base):
